@@ -16,6 +16,8 @@ def harness_text(c):
         return "matrix %d %s" % (c["n"], to_harness(c["e"]))
     if k == "struct":
         return "struct %s" % to_harness(c["e"])
+    if k == "singlec":
+        return "singlec %d %d %d %s" % (c["n"], c["idx"], c["mask"], to_harness(c["e"]))
     if k == "applybasis":
         return "applybasis %d %d %d %s" % (c["n"], c["j"], c.get("threads", 1), to_harness(c["e"]))
     if k == "applyraw":
@@ -35,6 +37,8 @@ def coq_term(c):
         return "run_matrix %s %s" % (cnat(c["n"]), to_coq(c["e"]))
     if k == "struct":
         return "run_struct %s" % to_coq(c["e"])
+    if k == "singlec":
+        return "run_single_c %s %s %s %s" % (cnat(c["n"]), cnat(c["idx"]), cN(c["mask"]), to_coq(c["e"]))
     if k == "applybasis":
         return "run_apply_basis %s %s %s" % (cnat(c["n"]), cN(c["j"]), to_coq(c["e"]))
     if k == "applyraw":
@@ -60,7 +64,7 @@ def parse_impl(c, payload):
     if t[0] != "OK":
         return ("bad", payload)
     k = c["kind"]
-    if k in ("matrix", "struct"):
+    if k in ("matrix", "struct", "singlec"):
         act, ln = int(t[1]), int(t[2])
         acts = [int(x) for x in t[3:3 + ln]]
         rest = t[3 + ln:]
@@ -83,7 +87,7 @@ def parse_model(c, v):
     if k == "struct":
         act, ln, acts = a
         return ("ok", (act, ln, list(acts)), [])
-    if k == "matrix":
+    if k in ("matrix", "singlec"):
         act, ln, acts, rows = a
         flat = []
         for r in rows:
